@@ -1403,6 +1403,15 @@ int32 matrixResumeSession(ssl_t *ssl)
         return PS_FAILURE;
     }
 
+    /* The suite must still be one this session may use: it can have been
+       disabled since (matrixSslSetCipherSuiteEnabledStatus), for this
+       session or for all. The ticket path makes the same check. */
+    if (sslGetCipherSpec(ssl, g_sessionTable[i].cipher->ident) == NULL)
+    {
+        psUnlockMutex(&g_sessionTableLock);
+        return PS_FAILURE;
+    }
+
     /* Looks good */
     Memcpy(ssl->sec.masterSecret, g_sessionTable[i].masterSecret,
         SSL_HS_MASTER_SIZE);
